@@ -124,14 +124,25 @@ func Pick[T any](s *Source, items []T, label string) T {
 
 // Subset draws an order-preserving random subset with at least min elements (if available).
 func Subset[T any](s *Source, items []T, min int, label string) []T {
-	var out []T
-	for _, it := range items {
+	sel := make([]bool, len(items))
+	n := 0
+	for i := range items {
 		if s.Draw(2, label) == 1 {
-			out = append(out, it)
+			sel[i] = true
+			n++
 		}
 	}
-	for i := 0; len(out) < min && i < len(items); i++ {
-		out = append(out, items[i])
+	for i := 0; n < min && i < len(items); i++ {
+		if !sel[i] {
+			sel[i] = true
+			n++
+		}
+	}
+	var out []T
+	for i, it := range items {
+		if sel[i] {
+			out = append(out, it)
+		}
 	}
 	return out
 }
